@@ -1,6 +1,6 @@
 (* Extraction of the executable C12/C13 model for the correspondence check.
    ExtrOcamlBasic + ExtrOcamlString only; Z / positive stay inductive. *)
 From Coq Require Import Extraction ExtrOcamlBasic ExtrOcamlString ZArith List String.
-From Acme.C12 Require Import Proto NetModel Save Load Proj Domain Builder.
+From Acme.C12 Require Import Proto NetModel Save Load Proj Domain Builder Received.
 Extraction Language OCaml.
-Extraction "extracted/c12_model.ml" save load wfb in_domain prune canon save_outputs selected build.
+Extraction "extracted/c12_model.ml" save load wfb in_domain prune canon save_outputs selected build received_rel.
